@@ -103,7 +103,7 @@ func c18Specs() []distSpec {
 	return out
 }
 
-var c18Shapes = [][]int{{}, {3}, {1}, {5}, {2, 3}, {7}, {3, 3}, {2, 2, 2}, {1, 5}, {4, 5}, {3, 1, 3}, {2, 1, 2, 3}, {9}, {2}}
+var c18Shapes = [][]int{{}, {3}, {1}, {5}, {2, 3}, {7}, {3, 3}, {2, 2, 2}, {1, 5}, {4, 5}, {3, 1, 3}, {2, 1, 2, 3}, {9}, {2}, {2, 3, 4, 5}, {1, 2, 3, 2, 2}, {3, 2, 5}, {2, 2, 3, 3}}
 
 func (d distSpec) cdf(x float64) float64 {
 	if d.normal {
@@ -279,6 +279,18 @@ func c18Dist(k *fw.K, d distSpec, target int) {
 			}
 			if !d.normal && !(v >= d.a && v < d.b) {
 				k.Failf("%s.Init(%v): element %d = %v outside the support [%v, %v)", name, shape, i, v, d.a, d.b)
+				return
+			}
+		}
+		// freshness inside one tensor: positions do not share a draw
+		if len(x.Data) >= 2 {
+			seen := make(map[uint64]bool, len(x.Data))
+			for _, v := range x.Data {
+				seen[math.Float64bits(v)] = true
+			}
+			dups := len(x.Data) - len(seen)
+			if (!d.normal && dups > 0) || dups > 1+len(x.Data)/50 {
+				k.Failf("%s.Init(%v): only %d distinct values among %d elements of one tensor: element positions share draws", name, shape, len(seen), len(x.Data))
 				return
 			}
 		}
